@@ -710,6 +710,9 @@ func PanicSig(p TaskPanic) string {
 	if i := strings.IndexByte(msg, '\n'); i >= 0 {
 		msg = msg[:i]
 	}
+	if strings.HasPrefix(msg, "interface conversion") {
+		msg = "interface conversion"
+	}
 	if strings.Contains(msg, "index out of range") {
 		msg = "index out of range"
 	}
